@@ -358,6 +358,71 @@ def check_cdda(case):
     return True, "cdda-ok", None
 
 
+# ----------------------------------------------------------------------------- siblings whose names differ only in letter case
+CASE_TITLES = [["Intro", "INTRO"], ["INTRO", "Intro"], ["intro", "Intro", "INTRO"], ["A b", "A B", "a b"], ["Track x", "TRACK X", "track X", "Track X"],
+               ["T1", "t1"], ["loop.L", "LOOP.L", "Loop.l"]]
+
+
+def cdda_case_cases(quick):
+    for titles in CASE_TITLES:
+        yield {"kind": "cdda_case", "titles": titles}
+
+
+def check_cdda_case(case):
+    """tracks of different lengths whose titles differ only in letter case: the listing of each printed name shows THAT track"""
+    titles = case["titles"]
+    pos = [0]
+    for i in range(len(titles)):
+        pos.append(pos[-1] + i + 1)
+    binlen = Q.SECTOR * pos[-1]
+    tracks = [{"number": i + 1, "title": t, "indices": [(1, pos[i])]} for i, t in enumerate(titles)]
+    with scratch_dir("c20") as d:
+        with open(os.path.join(d, "disc.bin"), "wb") as f:
+            f.write(Q.bin_bytes(binlen))
+        cue = os.path.join(d, "disc.cue")
+        with open(cue, "w") as f:
+            f.write(Q.cue_text("disc.bin", tracks))
+        for i, t in enumerate(titles):
+            exp = [("num_channels", "u32", 2), ("sample_rate", "u32", 44100), ("num_audio_samples", "u32", 588 * (i + 1))]
+            st, out = guarded(lambda: tree.ls(cue, t), 30.0)
+            r = compare(st, out, exp, t)
+            if not r[0]:
+                return r[0], r[1], dict(r[2] or {}, track=i + 1, title=t)
+    return True, "cdda-case-ok", None
+
+
+def roland_case_cases(quick):
+    for names in (["SmpX", "SMPX"], ["SMPX", "SmpX"], ["smpx", "Smpx", "SMPX"]):
+        yield {"kind": "roland_case", "names": names}
+
+
+def check_roland_case(case):
+    names = case["names"]
+    samples, exps = {}, []
+    for i, nm in enumerate(names):
+        pts = [[11 + i, 1 + i], [22 + i, 2], [333 + 7 * i, 3], [44, 4 + i], [555 + i, 5]]
+        samples[i] = {"name": nm, "chain": [2 + i], "points": [p[0] for p in pts], "fine": [p[1] for p in pts], "mode": (3, 6, 1)[i],
+                      "freq": (2, 5, 0)[i], "stereo": i % 2, "key": 60 + i, "seq": 1 + i}
+        exp = [("sample_mode", "raw", "Stereo" if i % 2 else "Mono"), ("sampling_frequency", "u32", F.ROLAND_FREQ[(2, 5, 0)[i]]),
+               ("loop_mode", "enum:roland_loop", (3, 6, 1)[i])]
+        for pn, (addr, fine) in zip(("start_sample", "sustain_loop_start", "sustain_loop_end", "release_loop_start", "release_loop_end"), pts):
+            exp.append((f"{pn}/address", "u32", addr))
+            exp.append((f"{pn}/fine", "u32", fine))
+        exps.append(exp)
+    model = {"volumes": [{"name": "VOL", "perfs": [0]}], "performances": {0: {"name": "PERF", "patches": [0]}},
+             "patches": {0: {"name": "PATCH", "partials": [0]}}, "partials": {0: {"name": "PART", "samples": list(range(len(names)))}}, "samples": samples}
+    img = R.build_roland(model)[0]
+    st, image = guarded(lambda: tree.open_image(img), 30.0)
+    if st != "ok":
+        return False, "open-" + st, {"observed": repr(image)[:200]}
+    for nm, exp in zip(names, exps):
+        st, out = guarded(lambda: tree.ls(image, "VOL/PERF/" + nm), 30.0)
+        r = compare(st, out, exp, nm)
+        if not r[0]:
+            return r[0], r[1], dict(r[2] or {}, name=nm)
+    return True, "roland-case-ok", None
+
+
 # ----------------------------------------------------------------------------- compare
 def compare(st, out, exp, header_name):
     if st == "hang":
@@ -388,6 +453,10 @@ def run_case(case):
         return check_cdda(case)
     if k == "cdda_dense":
         return check_cdda_dense(case)
+    if k == "cdda_case":
+        return check_cdda_case(case)
+    if k == "roland_case":
+        return check_roland_case(case)
     img, path, exp, hname = {"akai_sample": build_sample, "akai_program": build_program, "roland_sample": build_roland}[k](case)
     def go():
         image = tree.open_image(img)
@@ -415,13 +484,14 @@ class Check(CheckBase):
             "AKAI program header (all 46 parameters + 12 temperaments), keygroup parameters of keygroup 0 and 1, zone velocity "
             "ranges, keygroup count 1..3 x address layouts (contiguous, permuted, gaps, non-multiples of 150, first address != "
             "150) x all 16 zone-name patterns (<=2 zones with 3 keygroups), keygroups that are exact copies of one another, Roland sample (5 points x address/fine corners, 7 "
-            "loop modes, 6 frequencies x mono/stereo), CDDA tracks; thorough: all pairs of adjacent fields. Printed tree parsed "
+            "loop modes, 6 frequencies x mono/stereo), CDDA tracks, sibling CDDA tracks / Roland samples whose names differ only in letter case (7 + 3 name sets, each item with its own values); thorough: all pairs of adjacent fields. Printed tree parsed "
             "back and compared with printed forms derived from the stored bytes. non-trivial = every deviated case")
     assumptions = ["enumeration labels are compared case- and punctuation-insensitively with the documented labels",
                    "out-of-domain enumeration bytes and listings over the 300-row cap carry no requirement"]
 
     def shards(self):
-        cases = list(sample_cases(self.quick)) + list(program_cases(self.quick)) + list(cdda_cases(self.quick)) + list(cdda_dense_cases(self.quick))
+        cases = list(sample_cases(self.quick)) + list(program_cases(self.quick)) + list(cdda_cases(self.quick)) + list(cdda_dense_cases(self.quick)) \
+            + list(cdda_case_cases(self.quick)) + list(roland_case_cases(self.quick))
         rc = list(roland_cases(self.quick))
         if self.quick:
             rc = rc[::3]
@@ -439,5 +509,5 @@ class Check(CheckBase):
             if not ok and prev is not None:
                 case = dict(case, _prelude=prev)
             prev = {k: v for k, v in case.items() if k != "_prelude"}
-            rep.case(case, ok=ok, klass=f"{case['kind']}:{klass}", nontrivial=bool(case.get("dev")) or case["kind"] in ("cdda", "cdda_dense"),
+            rep.case(case, ok=ok, klass=f"{case['kind']}:{klass}", nontrivial=bool(case.get("dev")) or case["kind"] in ("cdda", "cdda_dense", "cdda_case", "roland_case"),
                      detail=detail, sig=f"{case['kind']}:{klass}" + (":" + str(detail.get("key")) if detail and "key" in detail else ""))
